@@ -211,6 +211,7 @@ static std::string KnownDefect(const std::string& /*expr*/, const RealResult& /*
 
 static constexpr uint32_t SET_LIMIT = 5000;
 static constexpr uint32_t STEP_LIMIT = 120000;  // > the real MAX_ITERATIONS (100000)
+static constexpr uint32_t QUICK_STEP_LIMIT = 3000;
 using meta_ast = ccl::meta::UniqueCPPtr<SyntaxTree>;
 
 //! Names that ASTInterpreter::NameCollector attaches to a node (nodeVars), by name instead of slot id.
@@ -280,7 +281,18 @@ static RealResult Compare(const Prepared& prep, const Env& env, const ref::DataE
   const SyntaxTree& ast = *prep.ast;
 
   // --- oracle: the un-normalised tree
-  const ref::EvalResult oracle = ref::Eval(ast, refEnv, SET_LIMIT, STEP_LIMIT);
+  ref::EvalResult oracle = ref::Eval(ast, refEnv, SET_LIMIT, QUICK_STEP_LIMIT);
+  if (oracle.kind == ref::EvalResult::FAIL && oracle.failClass == ref::F_LIMIT && oracle.steps >= QUICK_STEP_LIMIT) {
+    // (probably) non-terminating recursion: the real interpreter needs 100000 iterations (seconds under
+    // ASan) to report iterationsLimit; do the full comparison on the first 30 such expressions only
+    static long nonTerminating = 0;
+    if (++nonTerminating > 30) {
+      ++stats.total;
+      ++stats.inconclusive;
+      return real;
+    }
+    oracle = ref::Eval(ast, refEnv, SET_LIMIT, STEP_LIMIT);
+  }
   if (oracleOut != nullptr) *oracleOut = oracle;
   if ((oracle.failMask >> ref::F_OVERFLOW & 1U) != 0) {
     // KNOWN real defect (would abort this process under UBSan): ASTInterpreter::ViArithmetic computes
@@ -299,17 +311,6 @@ static RealResult Compare(const Prepared& prep, const Env& env, const ref::DataE
     ++stats.known;
     if (++g_knownHits["recursion with non-stabilising type accepted, stack overflow at evaluation"] <= 5) printf("  KNOWN[unbounded nesting] %s\n", expr.c_str());
     return real;
-  }
-
-  if (oracle.kind == ref::EvalResult::FAIL && oracle.failClass == ref::F_LIMIT && oracle.steps >= STEP_LIMIT) {
-    // non-terminating recursion: the real interpreter needs 100000 iterations (seconds under ASan) to
-    // report iterationsLimit; check that on the first 30 such expressions only
-    static long nonTerminating = 0;
-    if (++nonTerminating > 30) {
-      ++stats.total;
-      ++stats.inconclusive;
-      return real;
-    }
   }
 
   // --- real: normalise a copy, evaluate
